@@ -753,7 +753,13 @@ def r01_6(run):
         run.ob('R01.6', hu, hu.node, '%s never redirects the machine (returns None)' % hn, not rets, slot='handler-returns:%s' % hn, message='%s returns %s' % (hn, [src(r.value) for r in rets]))
 
 
+def r01_10(run):
+    from . import c13
+    c13.ok_removal(run, 'R01.10')
+
+
 RULES = [
+    ('R01.10', 'the final OK line is removed exactly (cut by the length of the tested suffix, no character-set strip)', r01_10),
     ('R01.6', 'FSM table x abstract line classes (matcher ASTs interpreted on class representatives, first-match) against the control-spec 2.3 reply grammar, for 2xx/5xx/6xx codes', r01_6),
     ('R01.1', 'who-may-call: the control transport is written only in _maybe_issue_command', r01_1),
     ('R01.2', 'def-use: written bytes = queued command (tuple element agreement) + constant CRLF', r01_2),
